@@ -77,6 +77,7 @@ pub struct Obs {
     pub fnv: u64,
     pub tail_zero: bool,
     pub self_addr: usize,
+    pub probe: Option<(u64, u64)>,
 }
 
 fn observe(obj: &dyn CaseObj, file_len: usize) -> Obs {
@@ -91,7 +92,7 @@ fn observe(obj: &dyn CaseObj, file_len: usize) -> Obs {
     } else {
         (0, true)
     };
-    Obs { canon, parts, backing, fnv, tail_zero, self_addr: obj.self_addr() }
+    Obs { canon, parts, backing, fnv, tail_zero, self_addr: obj.self_addr(), probe: obj.drop_probe() }
 }
 
 enum Holder {
@@ -568,7 +569,7 @@ impl<'a> World<'a> {
             })
         });
         let expect = if loader == Loader::Full { self.files[fi].canon_full.clone() } else { self.files[fi].canon_eps.clone() };
-        self.slots.push(SlotEnt { holder: Some(Holder::Boxed(obj)), file: fi, file_len, loader, flags, expect, obs0: obs.clone(), probe: self.files[fi].probe, loaded_on: actor, op_loaded: i });
+        self.slots.push(SlotEnt { holder: Some(Holder::Boxed(obj)), file: fi, file_len, loader, flags, expect, obs0: obs.clone(), probe: obs.probe, loaded_on: actor, op_loaded: i });
         let si = self.slots.len() - 1;
         self.check_obs(i, si, &obs, "first read");
         // advice given to the kernel = translation of the flags
@@ -675,7 +676,8 @@ impl<'a> World<'a> {
         match r {
             Ok(Ok(obj)) => {
                 if fault.is_some() && fired > 0 {
-                    self.v("C09", "load-succeeded-after-syscall-failure", format!("op#{} {}: an injected system-call failure was swallowed", i, loader.name()));
+                    // not a C09 matter (nothing in the statement forbids a loader to survive a transient fault)
+                    self.counts.push("load_ok_despite_syscall_fault".into());
                 }
                 // a damaged file that still loads (lower minor version, zero-extended truncation): it is a
                 // structure like any other; release it right away, on another actor
